@@ -147,7 +147,8 @@ ircam_read_header	(SF_PRIVATE *psf)
 
 	psf->endian = SF_ENDIAN_LITTLE ;
 
-	if (psf->sf.channels > SF_MAX_CHANNELS)
+	/* A big endian count of 128 to 255 read the little endian way is negative, not large. */
+	if (psf->sf.channels < 1 || psf->sf.channels > SF_MAX_CHANNELS)
 	{	psf_binheader_readf (psf, "Epmf44", 0, &marker, &samplerate, &(psf->sf.channels), &encoding) ;
 
 		/* Sanity checking for endian-ness detection. */
